@@ -307,6 +307,7 @@ static void typed_print(const char *kind, int ok, const config_setting_t *m, int
   else { printf("1 "); puthex(sv); }
 }
 
+static struct { const char *ptr; char *copy; } held[16];
 struct chunked { const char *data; size_t len, pos, chunk; };
 static ssize_t chunked_read(void *c, char *buf, size_t size)
 {
@@ -491,6 +492,53 @@ int main(int argc, char **argv)
       if (!p) printf("bad-op"); else { int r = config_setting_set_string(p, v); if (v) memset(v, 'Z', strlen(v)); printf("%d", r); }
       free(v);
     }
+    /* ---- C01: a tree of <levels> nested lists or groups built through the API, written, read back ---- */
+    else if (OP("c01deep", 3)) {
+      long levels = atol(w[2]), i; int grp = !strcmp(w[1], "group");
+      if (levels < 1 || levels > 20000) printf("bad-op");
+      else {
+        config_t a, b; config_setting_t *s; char *m1 = NULL, *m2 = NULL; size_t l1 = 0, l2 = 0; FILE *f; int ok;
+        config_init(&a); config_init(&b);
+        s = config_setting_add(config_root_setting(&a), "d", grp ? CONFIG_TYPE_GROUP : CONFIG_TYPE_LIST);
+        for (i = 1; i < levels && s; i++) s = config_setting_add(s, grp ? "d" : NULL, grp ? CONFIG_TYPE_GROUP : CONFIG_TYPE_LIST);
+        f = open_memstream(&m1, &l1); config_write(&a, f); fclose(f);
+        ok = config_read_string(&b, m1);
+        printf("%d ", ok); puthex(config_error_text(&b));
+        f = open_memstream(&m2, &l2); config_write(&b, f); fclose(f);
+        printf(" %d", ok && l1 == l2 && !memcmp(m1, m2, l1));
+        free(m1); free(m2); config_destroy(&a); config_destroy(&b);
+      }
+    }
+    /* ---- C16: library-owned strings passed back in (aliasing) and strings handed out (lifetime) ---- */
+    else if (OP("set_string_self", 2)) {
+      config_setting_t *p = at(w[1]);
+      if (!p) printf("bad-op"); else printf("%d", config_setting_set_string(p, config_setting_get_string(p)));
+    }
+    else if (OP("set_include_dir_self", 1)) { config_set_include_dir(&cfg, config_get_include_dir(&cfg)); printf("ok"); }
+    else if (OP("add_self", 3)) {
+      /* add to the parent a setting with the very name string of an existing member (override or refusal) */
+      config_setting_t *p = at(w[1]);
+      if (!p || !p->parent) printf("bad-op");
+      else { config_setting_t *r = config_setting_add(p->parent, config_setting_name(p), atoi(w[2])); putpath(r); printf(" [%s]", logstr()); }
+    }
+    else if (OP("hold", 4)) {
+      /* remember a string the library handed out: value | name of a setting, or the include directory */
+      int k = atoi(w[1]); config_setting_t *p = at(w[3]); const char *q = NULL;
+      if (k < 0 || k >= 16 || (!p && strcmp(w[2], "incdir"))) printf("bad-op");
+      else {
+        if (!strcmp(w[2], "value")) q = config_setting_get_string(p);
+        else if (!strcmp(w[2], "name")) q = config_setting_name(p);
+        else q = config_get_include_dir(&cfg);
+        free(held[k].copy); held[k].ptr = q; held[k].copy = q ? strdup(q) : NULL; printf("ok");
+      }
+    }
+    else if (OP("check_held", 2)) {
+      int k = atoi(w[1]);
+      if (k < 0 || k >= 16) printf("bad-op");
+      else if (!held[k].ptr) printf("held ok");
+      else printf(strcmp(held[k].ptr, held[k].copy) == 0 ? "held ok" : "held CHANGED");
+    }
+    else if (OP("drop_held", 2)) { int k = atoi(w[1]); if (k >= 0 && k < 16) { free(held[k].copy); held[k].copy = NULL; held[k].ptr = NULL; } printf("ok"); }
     else if (OP("set_format", 3)) { config_setting_t *p = at(w[1]); if (!p) printf("bad-op"); else printf("%d", config_setting_set_format(p, (unsigned short)atoi(w[2]))); }
     else if (OP("set_hook", 3)) { config_setting_t *p = at(w[1]); if (!p) printf("bad-op"); else { config_setting_set_hook(p, (void *)(uintptr_t)strtoul(w[2], NULL, 10)); printf("ok"); } }
     else if (OP("set_int_elem", 4)) { config_setting_t *p = at(w[1]); if (!p) printf("bad-op"); else putpath(config_setting_set_int_elem(p, atoi(w[2]), (int)atoll(w[3]))); }
